@@ -12,6 +12,13 @@ def obligations(tier):
         obs.append(Ob(f"C16.nps.N{nn}", "CH", "harness.h_chart", "nps", 900, {"VF_NN": nn},
                       funcs=(CH_ + "Chart.notes_per_second", CH_ + "Chart._notes_per_second", "chartparse.instrument.InstrumentTrack.last_note_end_timestamp"),
                       bounds=f"<={nn} notes with symbolic times, six bound forms (omitted / tick / timestamp / mixed), present or absent track"))
+    obs.append(Ob("C16.two_queries", "CH", "harness.h_extra", "nps_two_tracks", 600, funcs=(CH_ + "Chart.notes_per_second",),
+                  bounds="two consecutive queries with the same bounds on two tracks with different (symbolic) last-note ends, either order"))
+    obs.append(Ob("C16.last_note_end.integrated", "CH", "harness.h_integrated", "note_section", 1200, {"VF_IDX": "0,1", "VF_ORDER": 0},
+                  funcs=("chartparse.instrument.InstrumentTrack.from_chart_lines", "chartparse.instrument.InstrumentTrack.last_note_end_timestamp"),
+                  bounds="omitted end = last note end: end times through the real parser, lanes with different (possibly zero) lengths"))
+    obs.append(Ob("C16.long_map.index.K10", "CH", "harness.h_big", "index_big", 900, {"VF_KB": 10}, funcs=("chartparse.sync.BPMEvents._index_of_proximal_event",),
+                  bounds="tick bounds are tempo-map lookups: 10 tempo events"))
     obs.append(Ob("C16.last_note_end", "CH", "harness.h_instrument", "last_note_end", 120, funcs=("chartparse.instrument.InstrumentTrack.last_note_end_timestamp",)))
     obs.append(Ob("C16.real_chart", "CH", "harness.h_chart", "nps_real", 900, funcs=(CH_ + "Chart.notes_per_second", "chartparse.sync.BPMEvents.timestamp_at_tick_no_optimize_return"),
                   bounds="parsed chart, symbolic tick bounds through the real tempo lookup over a linear clock"))
